@@ -148,6 +148,12 @@ def run_property(prop: str, root: str = "/repo", thorough: bool = False) -> int:
             extra["independent_seed_corpus"] = cc
             if cc["missed"]:
                 sv["failed"].append("independent seeds no longer detected: " + ", ".join(cc["missed"]))
+            from .selfval import benign_check
+
+            bc = benign_check(prop, root)
+            extra["benign_refactoring_corpus"] = bc
+            if bc["false_alarms"]:
+                sv["failed"].append("false alarms on behaviour-preserving refactorings: " + "; ".join(bc["false_alarms"][:3]))
             if sv["failed"]:
                 raise AnalysisError(
                     "self-validation failed (the checker, not the repository, is broken): "
